@@ -4,7 +4,7 @@ import time
 
 import z3
 
-from . import parser
+from . import dm, parser
 from .values import (Agg, Buf, ByteLoc, Enum, FnItem, Loc, Opaque, Ref, SliceLoc, SliceRef, StrV, Unit, UnitT, VecSliceRef, VecV,
                      bv64, const_buf, deep_copy, zero_buf)
 
@@ -35,7 +35,7 @@ class Path:
         self.decisions = []
         self.pc = []
         self.solver = z3.Solver()
-        self.solver.set("timeout", 120000)
+        self.solver.set("timeout", 20000)
         self.new_alternatives = []
         self.steps = 0
         self.queries = 0
@@ -48,12 +48,31 @@ class Path:
         self.pc.append(c)
         self.solver.add(c)
 
-    def check(self, *extra):
+    def check(self, *extra, heavy=False):
+        """heavy=True: one-shot solver (z3's non-incremental strategy is far faster on the big overlay claims)"""
         t0 = time.time()
-        r = self.solver.check(*extra)
+        if heavy:
+            s = z3.Solver()
+            s.set("timeout", int(self.heavy_timeout * 1000))
+            s.add(*self.pc)
+            s.add(*extra)
+            r = s.check()
+            self.last_solver = s
+        else:
+            r = self.solver.check(*extra)
+            self.last_solver = self.solver
+            if r == z3.unknown:
+                s = z3.Solver()
+                s.set("timeout", int(self.heavy_timeout * 1000))
+                s.add(*self.pc)
+                s.add(*extra)
+                r = s.check()
+                self.last_solver = s
         self.solver_time += time.time() - t0
         self.queries += 1
         return r
+
+    heavy_timeout = 300
 
     def decide(self, cond):
         """Branch on a Bool term; returns the python bool taken on this path."""
@@ -180,6 +199,7 @@ class Interp:
                 break
             dec = work.pop()
             self.path = Path(dec)
+            dm.STATE["path"] = self.path
             res = None
             try:
                 res = setup(self)
@@ -624,9 +644,9 @@ class Interp:
         if op in ("Mul", "MulUnchecked"):
             return a * b
         if op == "Div":
-            return a / b if signed else z3.UDiv(a, b)
+            return a / b if signed else dm.udiv(a, b)
         if op == "Rem":
-            return z3.SRem(a, b) if signed else z3.URem(a, b)
+            return z3.SRem(a, b) if signed else dm.urem(a, b)
         if op == "BitAnd":
             return a & b
         if op == "BitOr":
